@@ -101,6 +101,12 @@ def _calls_named(node, names):
 def rule_error_path(ctx):
     R = "C02.2"
     ctx.rule(R, "in the CFG cache, every exit taken after CFG generation failed (`?`, return Err) is preceded by appending the collected reports to the per-definition report cache")
+    import c03run
+
+    if c03run.rule(ctx, R, only="lifting-fails"):
+        # decided by evaluating the runner (rules/c03run.py): in the worlds in which lifting fails, what is displayed for the
+        # definition is everything CFG generation produced plus the error; the shape obligations below are the fallback
+        return
     for kind in ("template", "function"):
         fn = find_fn(RUN, "cache_" + kind)
         if fn is None:
@@ -177,17 +183,152 @@ def rule_error_path(ctx):
         ctx.check(R, "generate_cfg/both-stages-convert-errors", okg, t[:200], site(RUN, g))
 
 
+def eval_add_files(ctx, R):
+    """FileStack::add_files by evaluation (the whole function with its helpers, not only the loop body): one path of
+    each kind is handed over - a directory that can / cannot be listed (holding one Circom file), listed before or not;
+    a file without extension, with `.circom`, with another extension, canonicalisable or not - and what happens is
+    observed: a file queued, a report pushed, the directory's entries visited.  Same obligation keys as the
+    path-enumerating form below, which stays the fallback.  Returns True when decided."""
+    import itertools
+
+    import passeval
+    from finfun import NONE as FN, S as FS, Unsupported
+    from passeval import MSet, Panic, Sink
+
+    ERRS_ = "parser/src/errors.rs"
+    try:
+        w = passeval.PassWorld([ERRS_, INC], INC)
+    except Exception:  # noqa: BLE001
+        return False
+    w.lenient_opaque = True
+    if ("FileStack", "add_files") not in w.methods or "FileStack" not in w.structs:
+        return False
+    fn = w.methods[("FileStack", "add_files")][0]
+    st = site(INC, find_fn(INC, "add_files"))
+    worlds = []
+    for d, r, x, c in itertools.product((True, False), (True, False), (None, "circom", "txt"), (True, False)):
+        if d and (x is not None or not c):
+            continue
+        if not d and not r:
+            continue
+        worlds.append({"dir": d, "readable": r, "ext": x, "canon": c, "fresh": True})
+        if d:
+            worlds.append({"dir": d, "readable": r, "ext": x, "canon": True, "fresh": False})
+
+    def name(wd):
+        ex_ = "".join(",%s" % k_ for k_, v_ in sorted(wd.get("extra", {}).items()) if v_) + ("" if wd["fresh"] else ",listed-before")
+        if wd["dir"]:
+            return "directory,%s%s" % ("readable" if wd["readable"] else "unreadable", ex_)
+        return "file,%s,%s%s" % ("no-extension" if wd["ext"] is None else ("extension-circom" if wd["ext"] == "circom" else "extension-other"), "canonicalisable" if wd["canon"] else "not-canonicalisable", ex_)
+
+    results = {}
+    asked = set()
+    try:
+        pending = list(worlds)
+        done_extra = set()
+        while pending:
+            wd = pending.pop(0)
+            if not pending:
+                # any other yes/no question the code asks about a path (`is_symlink()`, `exists()`, ..) is one more dimension
+                for q_ in sorted(asked - done_extra):
+                    done_extra.add(q_)
+                    pending += [dict(w0, extra={q_: True}) for w0 in worlds]
+            cells = {}
+            keep = []
+            visited_children = []
+
+            def mk(text, is_dir=False, ext=None, canon=True, child=False):
+                def ident():
+                    return o
+
+                def question(m_, a_):
+                    if a_ or not (m_.startswith(("is_", "has_")) or m_ == "exists"):
+                        raise Unsupported("method %s of a path" % m_)
+                    asked.add(m_)
+                    return wd.get("extra", {}).get(m_, m_ == "exists")
+
+                o = ("O", "path", (("is_dir", is_dir), ("is_file", not is_dir), ("extension", FN if ext is None else FS("Some", ext)),
+                                   ("display", text), ("to_string_lossy", text), ("clone", ("PY", ident)), ("to_path_buf", ("PY", ident)), ("to_owned", ("PY", ident)), ("as_path", ("PY", ident)), ("as_ref", ("PY", ident)),
+                                   ("file_name", FS("Some", text.rsplit("/", 1)[-1])), ("*", ("PY", lambda m_, a_: question(m_, a_)))))
+                cells[id(o)] = (text, canon, child)
+                keep.append(o)
+                return o
+
+            passeval.VALUE_KEY[0] = lambda v: cells[id(v)][0] if isinstance(v, tuple) and id(v) in cells else None
+
+            def canonicalize(args):
+                t_ = cells.get(id(args[0]))
+                if t_ is None:
+                    raise Unsupported("a path made some other way: %r" % (args[0],))
+                if t_[2]:
+                    visited_children.append(t_[0])
+                return FS("Ok", mk("/canonical" + t_[0], canon=True)) if t_[1] else FS("Err", ("O", "io-error", ()))
+
+            def read_dir(args):
+                if not wd["readable"]:
+                    return FS("Err", ("O", "io-error", ()))
+                child = mk("/in/dir/child.circom", ext="circom", canon=True, child=True)
+                entry = ("O", "dir-entry", (("path", child),))
+                return FS("Ok", passeval.Iter([FS("Ok", entry)]))
+
+            w.stubs = {"canonicalize": canonicalize, "read_dir": read_dir}
+            stack, reports, listed = Sink(), Sink(), MSet([])
+            p0 = mk("/in/dir" if wd["dir"] else "/in/file" + ("" if wd["ext"] is None else "." + wd["ext"]), is_dir=wd["dir"], ext=wd["ext"], canon=wd["canon"])
+            if not wd["fresh"]:
+                listed.add(mk("/canonical/in/dir"))
+            vals = {"current_location": FN, "black_paths": MSet([]), "user_inputs": MSet([]), "listed_dirs": listed, "libraries": Sink(), "stack": stack}
+            fields = w.structs["FileStack"]
+            if [f_ for f_ in fields if f_ not in vals]:
+                raise Unsupported("FileStack has fields the world does not know")
+            fs_ = FS("FileStack", *[vals[f_] for f_ in fields])
+            try:
+                w.call_fn(fn, [fs_, ("L", (p0,)), reports])
+            finally:
+                w.stubs = {}
+                passeval.VALUE_KEY[0] = None
+            eff = []
+            if stack.items:
+                eff.append("%d file(s) queued" % len(stack.items))
+            if reports.items:
+                eff.append("%d report(s)" % len(reports.items))
+            if visited_children:
+                eff.append("entries of the directory visited")
+            results[name(wd)] = (wd, eff)
+    except Unsupported as u:
+        ctx.note("FileStack::add_files is outside the evaluator's subset (%s): the path-enumerating form applies" % u)
+        return False
+    except Panic as p_:
+        ctx.bad(R, "add_files/evaluated/no-panic", "panics: %s" % p_, st)
+        return True
+    for nm, (wd, eff) in results.items():
+        if not wd["fresh"]:
+            ctx.check(R, "add_files/input[%s]" % nm, not [x_ for x_ in eff if "queued" in x_ and not wd["readable"]], "a directory that was listed before is skipped or listed again; effects: %s" % eff, st)
+            continue
+        if wd["ext"] != "circom" and not wd["dir"] and not wd["canon"]:
+            continue
+        ctx.check(R, "add_files/input[%s]" % nm, bool(eff), ("effects: %s" % eff) if eff else "a path of this kind named by the user is skipped without queueing, recursing or reporting", st)
+    return True
+
+
 def rule_add_files(ctx):
     R = "C02.3"
     ctx.rule(R, "for every kind of path named on the command line (directory readable or not; file without extension, with the `circom` extension, with another one; canonicalisable or not) the loop body of FileStack::add_files queues it, recurses into it, or pushes a report - decided by evaluating the body on each kind, so the way the tests are written does not matter")
     from astlib import inline_helpers
     import itertools
 
+    if eval_add_files(ctx, R):
+        return
     fn0 = find_fn(INC, "add_files")
     if fn0 is None:
         return ctx.missing(R, "FileStack::add_files")
     fn = inline_helpers(fn0, INC)
     loops = [n for n in walk(fn["body"]) if n["k"] == "For"]
+    if len(loops) != 1:
+        # several loops (e.g. one that lists a directory, read in from a helper): the one over the paths handed to add_files
+        import sgrep as _sg
+
+        pv_ = _sg.params(fn0)
+        loops = [n for n in loops if pv_ and render(strip(n["iter"])).replace(" ", "").replace("&", "") in (pv_[0], pv_[0] + ".iter()")]
     if len(loops) != 1:
         return ctx.missing(R, "add_files/loop")
     lp = loops[0]
@@ -242,6 +383,18 @@ def rule_add_files(ctx):
                     return recv[0] in ("Some", "Ok")
                 if m in ("is_none", "is_err"):
                     return recv[0] in ("None", "Err")
+                if m == "map" and len(e["args"]) == 1 and e["args"][0]["k"] == "Closure":
+                    if recv[0] in ("Some", "Ok"):
+                        cl = e["args"][0]
+                        nm = [b["name"] for b in walk(cl["inputs"][0]) if b["k"] == "PIdent"]
+                        return (recv[0], ev(cl["body"], w, dict(env, **{nm[0]: recv[1]}) if nm else env))
+                    return recv
+                if m == "unwrap_or" and len(e["args"]) == 1:
+                    return recv[1] if recv[0] in ("Some", "Ok") else ev(e["args"][0], w, env)
+                if m == "unwrap_or_else" and len(e["args"]) == 1 and e["args"][0]["k"] == "Closure":
+                    return recv[1] if recv[0] in ("Some", "Ok") else ev(e["args"][0]["body"], w, env)
+                if m == "ok" and not e["args"]:
+                    return ("Some", recv[1]) if recv[0] == "Ok" else (NONE if recv[0] == "Err" else recv)
                 if m in ("map_or", "is_some_and", "map_or_else") and e["args"] and e["args"][-1]["k"] == "Closure":
                     cl = e["args"][-1]
                     if recv[0] in ("Some", "Ok"):
@@ -430,7 +583,12 @@ def rule_desugar(ctx):
 def rule_tables(ctx):
     R = "C02.5"
     ctx.rule(R, "inserting a definition into a name-keyed table is guarded by a membership test or its return value is inspected (no silent overwrite of a duplicate definition)")
+    import c17
+
+    tl_decided = c17.eval_template_library(ctx, R)  # the library constructor by evaluation; its shape obligations are the fallback
     for file, fname in ((TL, "new"), (MG, "add_definitions")):
+        if file == TL and tl_decided:
+            continue
         fn = find_fn(file, fname)
         if fn is None:
             ctx.missing(R, "%s::%s" % (file, fname))
@@ -455,7 +613,12 @@ def rule_tables(ctx):
 
 def rule_duplicate_label(ctx, R="C02.13"):
     ctx.rule(R, "the `duplicated function or template` error is located at the definition that is dropped, in the file being added (so it is displayed whenever that file is a user input): its primary label is (the dropped definition's location, the file id of the file being processed)")
+    import c17
+
+    tl_decided = c17.eval_template_library(ctx, R)
     for file, fname in ((TL, "new"), (MG, "add_definitions")):
+        if file == TL and tl_decided:
+            continue
         fn = find_fn(file, fname)
         if fn is None:
             ctx.missing(R, "%s::%s" % (file, fname))
